@@ -116,6 +116,11 @@ class SimpleDictDocument(DictDocument):
             except TypeError:
                 raise ValidationError([orig_k, v2])
 
+            # an uploaded file part is a value of File members only
+            if isinstance(v2, File.Value) and \
+                                           not issubclass(member.type, File):
+                raise ValidationError([orig_k, v2.name])
+
             cls_attrs = self.get_cls_attrs(member.type)
             v2 = self._parse(cls_attrs, v2)
 
